@@ -99,6 +99,11 @@ def vecMon (mon : Mon) (id : Nat) (w : List String) (st : String) (a : KV) : Mon
      then (if sameList a "" l then good mon else bad mon s!"V{id} {op}: failed but the contents changed")
      else bad mon s!"V{id} {op} {x}: spurious out-of-memory") else
   if st != "ok" then bad mon s!"V{id} {op}: status {st}" else
+  if (op == "resize_fit" ∨ op == "resize_grow") ∧ big x then
+    -- a giant resize answered ok is never materialised by the monitor: only the header is judged
+    (if kvN a "n" ≠ x then bad mon s!"V{id} {op} {x}: answered ok but size() = {kvN a "n"}"
+     else if kvN a "cap" < x then bad mon s!"V{id} {op} {x}: answered ok but capacity() = {kvN a "cap"}"
+     else good mon) else
   let (mon, l', r) : Mon × List Nat × Option String := match op with
     | "append" => (mon, l ++ [xv], none)
     | "prepend" => (mon, xv :: l, none)
@@ -398,6 +403,8 @@ def strMon (mon : Mon) (id : Nat) (w : List String) (st : String) (a : KV) : Mon
     (if (op == "append_chars" ∨ op == "assign_chars" ∨ op == "pad_end") ∧ (y ≥ 2 ^ 40 ∨ x ≥ 2 ^ 40) ∧ same then good mon
      else bad mon s!"S{id} {op}: spurious out-of-memory or contents changed") else
   if st != "ok" then bad mon s!"S{id} {op}: status {st}" else
+  if ((op == "append_chars" ∨ op == "assign_chars") ∧ y ≥ 2 ^ 31) ∨ (op == "pad_end" ∧ x ≥ 2 ^ 31) then
+    bad mon s!"S{id} {op}: a request of more than 2^31 characters answered ok" else
   if isNum ∧ ¬ (y = 0 ∨ y = 2 ∨ y = 8 ∨ y = 10 ∨ y = 16) then bad mon s!"S{id} {op}: base {y} accepted" else
   let hx (sep : Nat) : List Nat :=
     let cells := bs.map fun b => [hexUpper (b / 16), hexUpper (b % 16)]
